@@ -165,7 +165,7 @@ def gen_schedules(rng: random.Random, quick: bool, flavour: str):
                         steps.append((dirn, f if (dirn == d and i // 2 == k) else "deliver"))
                     if (ver + k) % (3 if quick else 1) == 0:
                         out.append((ver, 1 + (ver + k) % 3, True, steps))
-    n = (60 if quick else 1500)
+    n = (60 if quick else 8000)
     for i in range(n):
         ver = rng.choice(versions)
         steps = [("bringup",)]
